@@ -199,10 +199,26 @@ def _check_case(case):
 
 
 # ----------------------------------------------------------------------------------------------------------------
+class HistoryDependent(Exception):
+    """Raised by _run when a module evaluated a second time (another input first, no reset) answers differently."""
+
+
 def _run(pym, cls, state, **kw):
     m = cls(pym.Signal("in", state=state.copy()), **kw)
     m.response()
     out = m.sig_out[0].state
+    # the same module type on a fresh object, evaluated for another input first and then (no reset in between, as in a
+    # finite-difference loop or a manual re-evaluation) for this one: the element-level operators are pure functions
+    s2 = pym.Signal("in", state=state * 0.37 + 0.21)
+    m2 = cls(s2, **kw)
+    m2.response()
+    s2.state = state.copy()
+    m2.response()
+    out2 = m2.sig_out[0].state
+    a, b = _dense(out), _dense(out2)
+    if np.shape(a) != np.shape(b) or not np.allclose(a, b, rtol=1e-12, atol=1e-13 * (1.0 + float(np.max(np.abs(a), initial=0.0)))):
+        raise HistoryDependent(f"{cls.__name__}: the second response() of a module (first evaluated for another input) "
+                               f"differs from a fresh evaluation by {float(np.max(np.abs(a - b))) if np.shape(a) == np.shape(b) else 'shape'}")
     return out
 
 
